@@ -3,11 +3,13 @@
      lex <mask> <types|-> <hex>      lexemes of the text:  start:end:rule:tokens  separated by ' '
      toks <mask> <types|-> <hex>     token stream only
      hyp <mask> <types|-> <hex>      does the text satisfy the hypotheses of `C09.lex_render` (Renderable)?
+     pratt <mask> <types|-> <hex>    callback trace of the small precedence-climbing parser the parenthesis theorem is about
      trace <mask> <types|-> <hex>    callback trace of the operator-precedence model on the token stream (or `unsupported`)
 -/
 import UtapModel.Model.C09Lex
 import UtapModel.Model.C09Ops
 import UtapModel.Model.C09Render
+import UtapModel.Model.C09GenTbl
 import UtapModel.Gen.C09Tables
 open UtapModel.C09
 
@@ -45,11 +47,7 @@ def mkCfg (mask : Nat) (types : List (List Ch)) : Cfg :=
   { rules := Gen.rules, kws := Gen.keywordTable, maxLen := Gen.maxLen, mask := mask,
     bitOld := Gen.bitOLD, bitProperty := Gen.bitPROPERTY, bitProb := Gen.bitPROB,
     tConst := Gen.T_CONST, tOldConst := Gen.T_OLDCONST,
-    isType := fun _ w => types.contains w }
-
-def genTables : Tables :=
-  { levels := Gen.precLevels, binary := Gen.binaryProds, unary := Gen.unaryProds, assign := Gen.assignProds,
-    nonTypeId := Gen.nonTypeId, kindNames := Gen.kindNames, tokNames := Gen.tokNames }
+    isType := fun _ w => types.contains w, expectStops := Gen.expectStopsBeforeClose }
 
 def parseTypes (s : String) : List (List Ch) :=
   if s == "-" then [] else (s.splitOn ",").map (fun x => x.toList.map Char.toNat)
@@ -84,7 +82,7 @@ partial def decomposeGo (cfg : Cfg) (s : List Ch) (sep0 : List Triv) (items : Li
           match fuel with
           | 0 => none
           | fuel + 1 =>
-            match commentStep t with
+            match commentStep cfg.expectStops t with
             | .eof => none
             | .expect _ => none
             | .close => some (body.reverse, t.drop 2)
@@ -128,6 +126,10 @@ def stepLine (line : String) : String :=
     else if op == "toks" then
       " ".intercalate ((lex cfg s).map showTok)
     else if op == "hyp" then renderableText cfg s
+    else if op == "pratt" then
+      match prattTrace (lex cfg s) with
+      | some tr => " ".intercalate tr
+      | none => "unsupported"
     else if op == "trace" then
       match opsTraceT genTables (lex cfg s) with
       | some tr => " ".intercalate tr
